@@ -49,8 +49,8 @@ def cases(rng, tier, shard, nshards):
 
 
 def _dot(row, z, n):
-    s = 0.0
-    for j in range(n):
+    s = row[0] * z[0]            # (no float start value: an integer row times an integer point stays an integer)
+    for j in range(1, n):
         s = s + row[j] * z[j]
     return s
 
@@ -64,6 +64,16 @@ def run_case(case, ctx):
     A[np.abs(A) < 0.1] = 0.7
     B = np.round(rng.normal(size=(m, n)) * 0.3, 3)
     b = np.round(rng.normal(size=m), 3)
+    int_x = kind in ('affine', 'smooth') and case['seed'] % 8 == 0
+    if int_x:
+        # the point handed over as Python ints; for the affine map also integer coefficients, so that f(x) itself is an
+        # integer array (the values at the shifted points are not)
+        ctx.count('integer_typed_x_cases')
+        x = rng.integers(1, 5, size=n) * rng.choice([-1, 1], size=n)
+        if kind == 'affine':
+            A = np.rint(A * 2).astype(int)
+            A[A == 0] = 1
+            b = np.rint(b * 3).astype(int)
     step = D.build_step(nd, case['step'])
     kw = dict(method=method, order=order, step=step, full_output=True)
     D._OBS.clear()
@@ -76,7 +86,7 @@ def run_case(case, ctx):
         if kind == 'affine':
             def f(z):
                 return np.array([_dot(A[i], z, n) + b[i] for i in range(m)])
-            exact = A.copy()
+            exact = A.astype(float)
         else:
             def f(z):
                 return np.array([np.sin(_dot(A[i], z, n)) * np.exp(_dot(B[i], z, n)) for i in range(m)])
@@ -84,7 +94,7 @@ def run_case(case, ctx):
             exact = ca[:, None] * A * eb[:, None] + sa[:, None] * eb[:, None] * B
         try:
             with np.errstate(all='ignore'):
-                J, info = nd.Jacobian(f, **kw)(x.copy())
+                J, info = nd.Jacobian(f, **kw)([int(v) for v in x] if int_x else x.copy())
         except Exception as exc:
             ctx.reject('jacobian_raised', observed='%s: %s' % (type(exc).__name__, str(exc)[:150]),
                        kind=kind, m=m, n=n, method=method, length_one_output=bool(m == 1))
